@@ -8,6 +8,7 @@ import (
 	"errors"
 	"fmt"
 	"math"
+	"runtime/debug"
 	"strings"
 	"time"
 
@@ -418,6 +419,12 @@ func newWorldPre(ctx context.Context, engine string, pre *preFactory) (*world, e
 		case "exit":
 			_ = mod.CloseWithExitCode(ctx, uint32(n.V))
 			panic(sys.NewExitError(uint32(n.V)))
+		case "cbrec": // unbounded nesting: the host call made by the callee finds the same node again
+			w.script = append([]node{n}, w.script...)
+			if _, err := mod.ExportedFunction(n.F).Call(ctx, uint64(uint32(n.X))); err != nil {
+				panic(err)
+			}
+			return uint32(n.V)
 		case "cb":
 			_, err := mod.ExportedFunction(n.F).Call(ctx, uint64(uint32(n.X)))
 			if err != nil && !n.Swallow {
@@ -738,6 +745,13 @@ func runOne(mode string) func(id int, raw json.RawMessage) common.Result {
 			return r
 		}
 		res := common.Result{ID: id, OK: true}
+		for _, c := range b.Hist {
+			for _, n := range c.Top.Script {
+				if n.T == "cbrec" { // every level of this recursion is a Go frame: a smaller Go stack limit reaches the end sooner
+					debug.SetMaxStack(96 << 20)
+				}
+			}
+		}
 		modes := []string{"plain"}
 		if mode == "plain" && id%2 == 1 {
 			modes = append(modes, "plain-ctxdone")
@@ -775,9 +789,15 @@ func main_(child string, args []string) {
 		if !r.OK && (r.Key == "crash" || r.Key == "hang") {
 			var b behaviour
 			_ = json.Unmarshal(lines[i], &b)
-			d := ""
+			d, rec := "", false
 			for _, c := range b.Hist {
 				d += c.Top.Fn + ";"
+				for _, n := range c.Top.Script {
+					rec = rec || n.T == "cbrec"
+				}
+			}
+			if rec { // one cause, one key
+				d = "guest-host-guest-recursion-without-bound"
 			}
 			msg := r.Msg
 			k := r.Key
